@@ -83,7 +83,7 @@ impl Ctx {
                 if let Ok(s) = std::fs::read_to_string(&f) {
                     for l in s.lines() {
                         let l = l.trim();
-                        if !l.is_empty() && !l.starts_with('#') {
+                        if !l.is_empty() && !(l.starts_with("# ") || l == "#") {
                             v.push(l.to_string());
                         }
                     }
